@@ -92,6 +92,28 @@ pub fn check_protocol(seq: &[u8], k: usize) -> Option<(String, String)> {
         if it.next().is_some() || it.next().is_some() {
             return Some(("kmer.protocol.after_end".to_string(), "an exhausted iterator yielded another item".to_string()));
         }
+        // two generators alive on one thread, advanced in turn: each must behave as if it were alone
+        let k2 = if k < 31 { k + 1 } else { k - 1 }.max(1);
+        let exp2: Vec<u64> = model::windows(seq, k2).into_iter().map(|w| w.1).collect();
+        let mut a = KmerGenerator::new(seq, k);
+        let mut b = KmerGenerator::new(seq, k2);
+        let (mut ga, mut gb) = (Vec::new(), Vec::new());
+        loop {
+            let x = a.next();
+            let y = b.next();
+            if let Some(x) = x {
+                ga.push(x.0);
+            }
+            if let Some(y) = y {
+                gb.push(y.0);
+            }
+            if x.is_none() && y.is_none() {
+                break;
+            }
+        }
+        if ga != exp || gb != exp2 {
+            return Some(("kmer.protocol.interleaved_generators".to_string(), format!("two generators (k={} and k={}) advanced in turn: {} / {} items, {} / {} when each runs alone", k, k2, ga.len(), gb.len(), exp.len(), exp2.len())));
+        }
         None
     });
     match r {
